@@ -497,6 +497,37 @@ class Run:
                 if q["kind"] == "Act" and any(e.get("target") == q["nid"] or (self.node_attr(q["nid"]) is None and e.get("dyn_index") is not None) for e in closed_running):
                     return "client-closed-running-act-over-open-children"
                 q = self.parent_of(q, by_tid)
+        # an open task inside the timeout handler steps of an ACT that is itself already closed (the client answered the act after its
+        # timeout rule had fired): the act's closing does not wait for / end the handler flow started beneath it
+        q = p
+        while q is not None:
+            if q["kind"] == "Act" and q["state"] in TERMINAL:
+                r = self.node_attr(q["nid"])
+                qn = r[1] if r else {}
+                inside = False
+                for rule in (qn.get("timeout") or []):
+                    stack = list(rule.get("steps") or [])
+                    while stack:
+                        x = stack.pop()
+                        if x.get("id") == d["nid"]:
+                            inside = True
+                        for k2, c, _ in kids(x):
+                            stack.append(c)
+                if inside:
+                    return "timeout-handler-open-under-closed-act"
+            q = self.parent_of(q, by_tid)
+        # skip marks the siblings of the skipped act Skipped, but not what runs beneath them (e.g. a fired timeout handler step with an open act)
+        for e in hist:
+            if e["action"] != "Skip":
+                continue
+            for tg in [x for x in ts if x["nid"] == e.get("target")]:
+                tp = self.parent_of(tg, by_tid)
+                q = p
+                while q is not None and tp is not None:
+                    qp = self.parent_of(q, by_tid)
+                    if q["state"] == "Skipped" and q["tid"] != tg["tid"] and qp is not None and qp["tid"] == tp["tid"]:
+                        return "open-under-sibling-marked-skipped-by-skip"
+                    q = qp
         if ending == "Aborted" and did("Abort"):
             return "open-sibling-after-abort"
         return "%s=%s under %s" % (d["kind"], d["state"], ("%s=%s" % (p["kind"], p["state"])) if p is not None else "root")
